@@ -4,204 +4,9 @@
 From V.lib Require Import Base.
 From Coq Require Import Permutation.
 From V.c01 Require Import C01Codec C01Model C01LeafProofs C01TreeProofs.
-
-(* ---------------------------------------------------------------- leaves *)
-Definition leaf_size_guard (l : leaf) : bool :=
-  match l with
-  | LFtyp n _ => lenN n =? 4
-  | LFree n _ => lenN n =? 4
-  | LMdat _ data => lenN data <? 18446744073709551600
-  | LTrun _ _ _ _ samples => lenN samples <? 4294967296
-  | LStts _ _ es => lenN es <? 4294967296
-  | LHdlr _ _ _ ht _ _ => lenN ht =? 4
-  | LStsz _ _ uni num ss => if 0 <? uni then lenN ss =? 0 else lenN ss =? num
-  | LTab n _ _ _ items => (lenN n =? 4) && (lenN items <? 4294967296)
-  | LCtts _ _ _ offs => lenN offs <? 4294967296
-  | LElst _ _ es => lenN es <? 4294967296
-  | LSaiz _ f at_ _ dflt cnt info => (negb (has f 1) || (lenN at_ =? 4)) && (negb (dflt =? 0) || (cnt <=? lenN info))
-  | LSaio _ f at_ _ os => (negb (has f 1) || (lenN at_ =? 4)) && (lenN os <? 4294967296)
-  | LSbgp _ _ gt _ es => (lenN gt =? 4) && (lenN es <? 4294967296)
-  | LTenc _ _ _ _ _ _ kid _ => lenN kid =? 16
-  | LFrma f => lenN f =? 4
-  | LFullOnly n _ _ => lenN n =? 4
-  | LTfra _ _ _ _ _ _ es => lenN es <? 4294967296
-  | LPssh _ _ sid kids _ => (lenN sid =? 16) && forallb (fun k => lenN k =? 16) kids
-  | LVisual n _ _ _ _ _ _ cn => (lenN n =? 4) && (lenN cn <=? 31)
-  | LAudio n _ _ _ _ => lenN n =? 4
-  | LColr ct _ _ _ _ _ => lenN ct =? 4
-  | LSchm _ _ st _ _ => lenN st =? 4
-  (* readBoxSize is what the fields need: holds of an exact decoded senc whose data is written back *)
-  | LSenc _ _ raw rs np => rs =? 16 + (if np then lenN raw else 0)
-  | _ => true
-  end.
-
-Lemma lenN_wr_tsample f s : lenN (wr_tsample f s) = trun_bps f.
-Proof.
-  unfold wr_tsample, trun_bps, wr_if.
-  destruct (has f 256), (has f 512), (has f 1024), (has f 2048);
-    repeat rewrite lenN_app; repeat rewrite lenN_be_enc; cbn; reflexivity.
-Qed.
-
-Lemma lenN_wr_pair p : lenN (wr_pair p) = 8.
-Proof. unfold wr_pair. now rewrite lenN_app, !lenN_be_enc. Qed.
-
-Lemma lenN_wr_sref p : lenN (wr_sref p) = 12.
-Proof. unfold wr_sref. now rewrite !lenN_app, !lenN_be_enc. Qed.
-
-Lemma lenN_wr_triple p : lenN (wr_triple p) = 12.
-Proof. unfold wr_triple. now rewrite !lenN_app, !lenN_be_enc. Qed.
-
-Lemma lenN_wr_elst w e : lenN (wr_elst w e) = 2 * N.of_nat w + 4.
-Proof. destruct e as [[[d t] ri] rf]. unfold wr_elst. rewrite !lenN_app, !lenN_be_enc. lia. Qed.
-
-Lemma lenN_wr_tfra w a b c e : lenN (wr_tfra w a b c e) = 2 * N.of_nat w + N.of_nat a + N.of_nat b + N.of_nat c.
-Proof. destruct e as [[[[t mo] x] y] z]. unfold wr_tfra. rewrite !lenN_app, !lenN_be_enc. lia. Qed.
-
-Lemma lenN_wr_stsc es single : forall ids, lenN (wr_stsc es single ids) = 12 * lenN es.
-Proof.
-  induction es as [|[fc spc] t IH]; intros ids; [reflexivity|].
-  cbn [wr_stsc]. rewrite !lenN_app, !lenN_be_enc, IH, lenN_cons. lia.
-Qed.
-
-Lemma lenN_wr_ctts offs : forall ends, lenN ends = 1 + lenN offs -> lenN (wr_ctts ends offs) = 8 * lenN offs.
-Proof.
-  induction offs as [|o ot IH]; intros ends H; [destruct ends; reflexivity|].
-  destruct ends as [|e0 [|e1 et]]; rewrite ?lenN_cons, ?lenN_nil in H; try lia.
-  change (wr_ctts (e0 :: e1 :: et) (o :: ot)) with
-    (be_enc 4 (u32 (e1 + 4294967296 - e0)) ++ be_enc 4 o ++ wr_ctts (e1 :: et) ot).
-  rewrite !lenN_app, !lenN_be_enc, IH, lenN_cons by (rewrite lenN_cons; lia). lia.
-Qed.
-
-Lemma lenN_firstn {A} (l : list A) n : n <= lenN l -> lenN (firstn (N.to_nat n) l) = n.
-Proof. unfold lenN. intros H. rewrite firstn_length. lia. Qed.
-
-Lemma lenN_flat_id (kids : list (list N)) : forallb (fun k => lenN k =? 16) kids = true ->
-  lenN (flat_map (fun k => k) kids) = 16 * lenN kids.
-Proof.
-  induction kids as [|k t IH]; intros H; [reflexivity|]. cbn [forallb] in H. apply andb_true_iff in H.
-  destruct H as [Hk Ht]. apply N.eqb_eq in Hk. cbn [flat_map]. rewrite lenN_app, lenN_cons, IH, Hk by assumption. lia.
-Qed.
-
-Lemma lenN_wr_nalus l : lenN (flat_map wr_nalu l) = sumN (map (fun x => 2 + lenN x) l).
-Proof.
-  induction l as [|x t IH]; [reflexivity|]. cbn [flat_map map sumN]. unfold wr_nalu at 1.
-  rewrite !lenN_app, lenN_be_enc, IH. lia.
-Qed.
-
-Lemma lenN_unity : lenN unity_matrix = 36.
-Proof. reflexivity. Qed.
+From V.c01 Require Export C01SizeProofs.   (* leaf_size_guard, leaf_size: the leaf part, shared with C01's fixed point *)
 
 Local Opaque zeros unity_matrix.
-
-Ltac lens :=
-  cbn [size_leaf N.eqb Pos.eqb];
-  repeat match goal with Hn : lenN (leaf_name _) = 4 |- _ => rewrite Hn end;
-  repeat first [ rewrite lenN_app | rewrite lenN_be_enc | rewrite lenN_zeros | rewrite lenN_unity
-               | rewrite lenN_cons | progress change (lenN (@nil N)) with 0
-               | rewrite (lenN_flat_map_const _ _ _ (lenN_wr_tsample _))
-               | rewrite (lenN_flat_map_const _ _ _ lenN_wr_pair)
-               | rewrite (lenN_flat_map_const _ _ _ lenN_wr_sref)
-               | rewrite (lenN_flat_map_const _ _ _ lenN_wr_triple)
-               | rewrite (lenN_flat_map_const _ _ _ (lenN_wr_elst _))
-               | rewrite (lenN_flat_map_const _ _ _ (lenN_wr_tfra _ _ _ _))
-               | rewrite (lenN_flat_map_const _ _ _ (lenN_be_enc _))
-               | rewrite lenN_wr_stsc | rewrite lenN_wr_nalus
-               | match goal with Hn : lenN (leaf_name _) = 4 |- _ => rewrite Hn end ].
-
-Lemma leaf_name_len l : leaf_size_guard l = true -> lenN (leaf_name l) = 4.
-Proof.
-  destruct l; cbn [leaf_size_guard leaf_name]; intros H; try reflexivity;
-    try (apply andb_true_iff in H; destruct H as [H _]); now apply N.eqb_eq in H.
-Qed.
-
-(* bytes written by a leaf encoder = Size() *)
-Lemma leaf_size l b :
-  raw_leaf l (dflt_rsv l) = Ok b -> leaf_size_guard l = true -> lenN b = size_leaf l.
-Proof.
-  intros H G. pose proof (leaf_name_len l G) as Hn. unfold raw_leaf in H.
-  destruct (body_leaf l (dflt_rsv l)) as [body| | |] eqn:Eb; try discriminate.
-  injection H as <-. unfold leaf_hdr, enc_hdr, enc_hdr_large.
-  destruct l; cbn [body_leaf dflt_rsv chunk nth leaf_large] in Eb |- *;
-    try (injection Eb as <-); cbn [leaf_size_guard] in G.
-  - (* ftyp *) lens. lia.
-  - lens. lia.
-  - (* mdat *) cbn [size_leaf]. destruct (large || (4294967287 <? lenN data)); lens; rewrite ?Hn; lia.
-  - lens. lia.
-  - (* tfhd *) unfold wr_if. cbn [size_leaf].
-    destruct (has flags 1), (has flags 2), (has flags 8), (has flags 16), (has flags 32); lens; lia.
-  - (* tfdt *) cbn [size_leaf]. destruct (version =? 0); lens; lia.
-  - (* trun *) destruct (has flags 1 && (dataOffset =? 0)); [discriminate|]. injection Eb as <-.
-    apply N.ltb_lt in G. cbn [size_leaf]. unfold trun_expected, wr_if, u32. rewrite N.mod_small by assumption.
-    destruct (has flags 1), (has flags 4); lens; lia.
-  - (* mvhd *) cbn [size_leaf]. destruct (version =? 1); lens; lia.
-  - (* tkhd *) cbn [size_leaf]. destruct (version =? 1); lens; lia.
-  - (* sidx *) cbn [size_leaf]. destruct (version =? 0); lens; lia.
-  - lens. lia.
-  - (* mdhd *) cbn [size_leaf]. destruct (version =? 1); lens; lia.
-  - (* hdlr *) apply N.eqb_eq in G. cbn [size_leaf]. destruct lacksNull; lens; lia.
-  - (* stts *) apply N.ltb_lt in G. cbn [size_leaf]. unfold u32. rewrite N.mod_small by assumption. lens. lia.
-  - (* stsc *) destruct ((single =? 0) && (lenN ids <? lenN entries)); [discriminate|]. injection Eb as <-. lens. lia.
-  - (* stsz *) cbn [size_leaf]. destruct (0 <? uniform); apply N.eqb_eq in G.
-    + rewrite G. cbn [N.eqb]. lens. lia.
-    + destruct (lenN sizes =? 0) eqn:E0; [apply N.eqb_eq in E0|]; lens; lia.
-  - (* stco / stss / co64 *) apply andb_true_iff in G. destruct G as [_ G]. apply N.ltb_lt in G.
-    cbn [size_leaf]. unfold u32. rewrite N.mod_small by assumption. lens. lia.
-  - lens. lia.
-  - (* ctts *) destruct (negb (lenN ends =? 1 + lenN offsets)) eqn:Ec; [discriminate|]. injection Eb as <-.
-    apply negb_false_iff, N.eqb_eq in Ec. apply N.ltb_lt in G.
-    cbn [size_leaf]. unfold u32. rewrite N.mod_small by assumption. lens. rewrite lenN_wr_ctts by assumption. lia.
-  - (* elst *) apply N.ltb_lt in G. cbn [size_leaf]. unfold u32. rewrite N.mod_small by assumption.
-    destruct (version =? 1); lens; lia.
-  - (* saiz *) destruct ((dflt =? 0) && (lenN info <? count)); [discriminate|]. injection Eb as <-.
-    apply andb_true_iff in G. destruct G as [G1 G2]. cbn [size_leaf].
-    destruct (has flags 1); cbn [negb orb] in G1; [apply N.eqb_eq in G1|];
-      (destruct (dflt =? 0); cbn [negb orb] in G2; [apply N.leb_le in G2|]; lens; rewrite ?lenN_firstn by assumption; lia).
-  - (* saio *) apply andb_true_iff in G. destruct G as [G1 G2]. apply N.ltb_lt in G2. cbn [size_leaf].
-    unfold u32. rewrite N.mod_small by assumption.
-    destruct (has flags 1); cbn [negb orb] in G1; [apply N.eqb_eq in G1|]; (destruct (version =? 0); lens; lia).
-  - (* sbgp *) apply andb_true_iff in G. destruct G as [G1 G2]. apply N.eqb_eq in G1. apply N.ltb_lt in G2.
-    cbn [size_leaf]. unfold u32, wr_if. rewrite N.mod_small by assumption. destruct (version =? 1); lens; lia.
-  - (* prft *) cbn [size_leaf]. destruct (version =? 0); lens; lia.
-  - (* tenc *) apply N.eqb_eq in G. cbn [size_leaf].
-    destruct (version =? 0); cbn [chunk nth]; (destruct ((isProt =? 1) && (ivSize =? 0)); lens; lia).
-  - (* frma *) apply N.eqb_eq in G. lens. lia.
-  - lens. lia.
-  - (* smhd *) cbn [chunk nth]. lens. lia.
-  - lens. lia.
-  - lens. lia.
-  - (* mehd *) cbn [size_leaf]. destruct (version =? 0); lens; lia.
-  - (* tfra *) apply N.ltb_lt in G. cbn [size_leaf]. unfold u32, tfra_w, tfra_n. rewrite N.mod_small by assumption.
-    destruct (version =? 1); lens; lia.
-  - (* pssh *) apply andb_true_iff in G. destruct G as [G1 G2]. apply N.eqb_eq in G1. cbn [size_leaf].
-    destruct (0 <? version); lens; rewrite ?lenN_flat_id by assumption; lia.
-  - (* stsd *) lens. lia.
-  - (* dref *) lens. lia.
-  - (* visual *) apply andb_true_iff in G. destruct G as [_ G]. apply N.leb_le in G. cbn [chunk nth].
-    lens. unfold vis_pad, u8. rewrite (N.mod_small (lenN cname)) by lia.
-    replace ((31 + 256 - lenN cname) mod 256) with (31 - lenN cname)
-      by (rewrite <- (N.mod_unique (31 + 256 - lenN cname) 256 1 (31 - lenN cname)); lia).
-    lia.
-  - (* audio *) cbn [chunk nth]. lens. lia.
-  - (* url *) cbn [size_leaf]. destruct noLoc, noZero; lens; lia.
-  - (* avcC *) cbn [size_leaf chunk nth hd]. destruct (avc_plain profile); cbn [orb]; [|destruct noTrailing]; lens; lia.
-  - (* btrt *) lens. lia.
-  - (* pasp *) lens. lia.
-  - (* colr *) apply N.eqb_eq in G. cbn [size_leaf]. unfold colr_icc.
-    destruct (bytes_eqb ctype n_nclx) eqn:E1.
-    + injection Eb as <-. lens. lia.
-    + destruct (bytes_eqb ctype n_nclc) eqn:E2.
-      * injection Eb as <-. apply bytes_eqb_eq in E2. subst ctype.
-        change (bytes_eqb n_nclc n_rICC || bytes_eqb n_nclc n_prof) with false. lens. rewrite ?G. lia.
-      * injection Eb as <-. destruct (bytes_eqb ctype n_rICC || bytes_eqb ctype n_prof); lens; lia.
-  - (* clap *) lens. lia.
-  - (* schm *) apply N.eqb_eq in G. cbn [size_leaf]. destruct (has flags 1); lens; lia.
-  - (* cslg *) cbn [size_leaf]. destruct (version =? 0); cbn [negb]; lens; lia.
-  - (* senc *) destruct (negb notParsed && has flags 2 && (0 <? count)); [discriminate|]. injection Eb as <-.
-    apply N.eqb_eq in G. destruct notParsed; lens; lia.
-  - (* emsg *) cbn [size_leaf]. destruct (version =? 1); lens; lia.
-  - (* elng *) cbn [size_leaf chunk nth]. destruct missing; lens; lia.
-  - (* kind *) lens. lia.
-Qed.
 
 (* ---------------------------------------------------------------- header field of the written bytes *)
 Lemma skipn_app_len {A} (x y : list A) n : length x = n -> skipn n (x ++ y) = y.
